@@ -29,10 +29,11 @@ import glob
 import logging
 import os
 import random
+import re
 
 from .. import tlc, tracecheck
 from ..core import Violation
-from ..tlaparse import parse_simulation_file, to_json
+from ..tlaparse import parse_state, parse_value, to_json
 from ..vclock import VirtualClock
 
 SPEC = "Launcher"
@@ -96,6 +97,36 @@ def _explain_drift(out, module, cfg, items, variants, label):
             return
 
 
+def _snap(st):
+    """copy of a flat state record (scalars and lists of scalars)"""
+    return {k: (list(v) if isinstance(v, list) else v) for k, v in st.items()}
+
+
+_RE_SIM_STATE = re.compile(r"^STATE_\d+ ==\s*$", re.M)
+_RE_SIM_ACT = re.compile(r"^/\\ act = (.*)$", re.M)
+_RE_SIM_PC = re.compile(r'^  pc \|-> "(\w+)"', re.M)
+
+
+def _light_behaviour(path):
+    """A behaviour written by `tlc -simulate file=`: the first state in full, of the others only `act` and `s.pc`
+    (the state records are big and the harness recomputes everything else by running the real code)."""
+    with open(path, "r", encoding="utf-8") as f:
+        text = f.read()
+    cuts = [m.start() for m in _RE_SIM_STATE.finditer(text)] + [len(text)]
+    if len(cuts) < 2:
+        return None, []
+    bodies = [text[cuts[i] : cuts[i + 1]] for i in range(len(cuts) - 1)]
+    first_body = "\n".join(ln for ln in bodies[0].split("\n", 1)[1].splitlines() if not ln.startswith("\\*") and not ln.startswith("===="))
+    first = parse_state(first_body)
+    steps = []
+    for b in bodies[1:]:
+        ma, mp = _RE_SIM_ACT.search(b), _RE_SIM_PC.search(b)
+        if not ma or not mp:
+            raise tlc.MachineryError("cannot read a state of %s" % path)
+        steps.append((to_json(parse_value(ma.group(1))), mp.group(1)))
+    return first, steps
+
+
 def _quiet_root_logger():
     root = logging.getLogger()
     if not root.handlers:
@@ -140,7 +171,7 @@ class LWorld:
             self.st[f] = [0] * n
         for f in ("looked", "found", "nsp", "warn"):
             self.st[f] = [False] * n
-        self.init = copy.deepcopy(self.st)
+        self.init = _snap(self.st)
         self.events = []
         self.k = 0  # launcher steps so far
         self.cur = 1
@@ -195,7 +226,7 @@ class LWorld:
 
     def emit(self, a, n, r):
         self.st["sw"] = self.sw()
-        self.events.append({"a": a, "n": n, "r": r, "st": copy.deepcopy(self.st)})
+        self.events.append({"a": a, "n": n, "r": r, "st": _snap(self.st)})
         if len(self.events) > 1200:
             raise _Divergence("run does not end")
 
@@ -324,16 +355,15 @@ def execute_proc(case):
     scn = case["scn"]
     n = scn["n"]
     root = os.path.join(tlc.scratch("xlauncher"), "w")
-    import shutil
-
-    shutil.rmtree(root, ignore_errors=True)
     cfgs = []
     for i in range(1, n + 1):
         node_root = os.path.join(root, "node%d" % i)
         binary = os.path.join(node_root, "install", "elasticsearch-9.9.9")
         data = os.path.join(binary, "data")
-        os.makedirs(data)
-        os.makedirs(os.path.join(binary, "bin"))
+        os.makedirs(data, exist_ok=True)
+        os.makedirs(os.path.join(binary, "bin"), exist_ok=True)
+        if os.path.exists(os.path.join(binary, "pid")):
+            os.remove(os.path.join(binary, "pid"))
         w.dirs[i] = binary
         cfgs.append(provisioner.NodeConfiguration("tar", "17", True, "127.0.0.1", "rally-node-%d" % i, node_root, binary, [data]))
     dir_to_node = {os.path.realpath(d): i for i, d in w.dirs.items()}
@@ -702,18 +732,17 @@ def proc_cases_from_tlc(ctx, out, cfg, num, depth):
     out.add_tlc(res)
     cases = []
     for fn in sorted(glob.glob(os.path.join(simdir, "b_*"))):
-        states = parse_simulation_file(fn)
-        if len(states) < 3:
+        first, steps = _light_behaviour(fn)
+        if len(steps) < 2:
             continue
-        first = to_json(states[0])
+        first = to_json(first)
         scn = first["scn"]
         sched = {}
         spawn = {}
         k = 0
         model_events = []
         complete = False
-        for st in states[1:]:
-            a = to_json(st["act"])
+        for a, pc in steps:
             if a["a"] in ENV_NAMES:
                 sched.setdefault(str(k), []).append([a["a"], a["n"], a["r"]])
             else:
@@ -721,7 +750,7 @@ def proc_cases_from_tlc(ctx, out, cfg, num, depth):
                     spawn[str(a["n"])] = a["r"]
                 model_events.append([a["a"], a["n"], a["r"]])
                 k += 1
-            if st["s"]["pc"] in ("done", "failed"):
+            if pc in ("done", "failed"):
                 complete = True
         cases.append(
             {
@@ -824,7 +853,7 @@ def run_proc_cases(cases, out, label, stats):
     verdicts = tracecheck.validate(SPEC, "TraceLauncher", "TraceLauncher.cfg", items, name="xltrace", chunk=700, timeout=600)
     out.states += verdicts.n_events
     out.transitions += verdicts.n_events
-    out.traces_validated += verdicts.accepted(len(items))
+    out.traces_validated += len(items) - len(set(verdicts.l2) | {tid for tid, fails in verdicts.l1.items() if any(c not in PINNED for _, cl in fails for c in cl)})
     for tid, fails in sorted(verdicts.l1.items()):
         case, item, info = index[tid]
         clauses = sorted({c for _, cl in fails for c in cl})
@@ -869,13 +898,13 @@ def run_process_part(ctx, out):
     stats["l1"] = {}
     stats["l1_new"] = {}
     stats["unexpected_exceptions"] = []
-    sim = proc_cases_from_tlc(ctx, out, "Launcher.sim.cfg", 300 if ctx.quick else 3000, 80)
-    sim += proc_cases_from_tlc(ctx, out, "Launcher.simok.cfg", 300 if ctx.quick else 3000, 80)
+    sim = proc_cases_from_tlc(ctx, out, "Launcher.sim.cfg", 250 if ctx.quick else 3000, 80)
+    sim += proc_cases_from_tlc(ctx, out, "Launcher.simok.cfg", 250 if ctx.quick else 3000, 80)
     out.note("leg S2C (process): %d TLC behaviours" % len(sim))
     items = run_proc_cases(sim, out, "psim", stats)
     out.sample({"source": "tlc-simulate", "scn": sim[0]["scn"], "pid0": sim[0]["pid0"], "q0": sim[0]["q0"], "recorded_events": [[e["a"], e["n"], e["r"]] for e in items[0]["events"]]})
     rnd = random.Random(ctx.seed + 77)
-    rc = [random_proc_case(rnd, k) for k in range(900 if ctx.quick else 12000)]
+    rc = [random_proc_case(rnd, k) for k in range(800 if ctx.quick else 12000)]
     items = run_proc_cases(rc, out, "prnd", stats)
     out.sample({"source": "random", "scn": rc[0]["scn"], "pid0": rc[0]["pid0"], "q0": rc[0]["q0"], "recorded_events": [[e["a"], e["n"], e["r"]] for e in items[0]["events"]][:60]})
     out.extra["process_runs"] = stats
@@ -953,7 +982,7 @@ def execute_rest(case):
     raised = {}
 
     def emit(a, r):
-        events.append({"a": a, "r": r, "st": copy.deepcopy(st)})
+        events.append({"a": a, "r": r, "st": _snap(st)})
         if len(events) > 400:
             raise _Divergence("wait_for_rest_layer does not end")
 
@@ -1062,7 +1091,7 @@ def run_rest_cases(cases, out, label, stats):
     verdicts = tracecheck.validate(SPEC, "TraceRestLayer", "TraceRestLayer.cfg", items, name="xlresttrace", chunk=3000, timeout=600)
     out.states += verdicts.n_events
     out.transitions += verdicts.n_events
-    out.traces_validated += verdicts.accepted(len(items))
+    out.traces_validated += len(items) - len(set(verdicts.l2) | {tid for tid, fails in verdicts.l1.items() if any(c not in PINNED for _, cl in fails for c in cl)})
     for tid, fails in sorted(verdicts.l1.items()):
         case, item = index[tid]
         fin = item["events"][-1]["st"]
@@ -1097,7 +1126,7 @@ def run_rest_part(ctx, out):
     items = run_rest_cases(cases, out, "rdump", stats)
     out.sample({"source": "tlc-dump", "max_attempts": cases[-1]["max"], "script": cases[-1]["script"], "recorded": items[-1]["events"][-1]["st"]})
     rnd = random.Random(ctx.seed + 123)
-    rc = [random_rest_case(rnd) for _ in range(500 if ctx.quick else 6000)]
+    rc = [random_rest_case(rnd) for _ in range(400 if ctx.quick else 6000)]
     run_rest_cases(rc, out, "rrnd", stats)
     out.extra["rest_runs"] = stats
     out.note("leg S2C/C2S (rest): %d runs (%d terminal states of the model, all with the model's result/calls/sleeps: %d), results %s, up to %d calls, %d with the default max_attempts" % (stats["runs"], stats["s2c"], stats["s2c_same"], stats["res"], stats["max_calls"], stats["default_max_attempts"]))
@@ -1129,7 +1158,7 @@ def execute_docker(case):
     st = {"cont": ["absent"] * n, "seen": [False] * n, "warn": [False] * n, "sw": 0, "sres": "none", "pres": "none"}
     for f in ("ups", "downs", "polls", "att", "detR", "detS", "sysm"):
         st[f] = [0] * n
-    init = copy.deepcopy(st)
+    init = _snap(st)
     events, anomalies = [], []
     world = {"k": 0, "cur": 1, "mark": 0.0, "skipped": 0, "phase": None}
     paths = {i: "/verif-docker/node%d/install" % i for i in range(1, n + 1)}
@@ -1147,7 +1176,7 @@ def execute_docker(case):
 
     def emit(a, i, r):
         st["sw"] = int((clock.now - world["mark"]) / 0.5 + 1e-6)
-        events.append({"a": a, "n": i, "r": r, "st": copy.deepcopy(st)})
+        events.append({"a": a, "n": i, "r": r, "st": _snap(st)})
         if len(events) > 5200:
             raise _Divergence("run does not end")
 
@@ -1353,12 +1382,11 @@ def docker_cases_from_tlc(ctx, out, cfg, num, depth):
     out.add_tlc(res)
     cases = []
     for fn in sorted(glob.glob(os.path.join(simdir, "b_*"))):
-        states = parse_simulation_file(fn)
-        if len(states) < 3:
+        first, steps = _light_behaviour(fn)
+        if len(steps) < 2:
             continue
         sched, cmd, model_events, k, complete = {}, {}, [], 0, False
-        for stt in states[1:]:
-            a = to_json(stt["act"])
+        for a, pc in steps:
             if a["a"] in DOCKER_ENV:
                 sched.setdefault(str(k), []).append((a["a"], a["n"], a["r"]))
             else:
@@ -1366,8 +1394,8 @@ def docker_cases_from_tlc(ctx, out, cfg, num, depth):
                     cmd["%s:%d" % (a["a"], a["n"])] = a["r"]
                 model_events.append([a["a"], a["n"], a["r"]])
                 k += 1
-            complete = complete or stt["s"]["pc"] in ("done", "failed")
-        cases.append({"src": "tlc-simulate", "scn": to_json(states[0]["scn"]), "sched": sched, "cmd": cmd, "model_events": model_events, "complete": complete})
+            complete = complete or pc in ("done", "failed")
+        cases.append({"src": "tlc-simulate", "scn": to_json(first["scn"]), "sched": sched, "cmd": cmd, "model_events": model_events, "complete": complete})
     return cases
 
 
@@ -1410,7 +1438,7 @@ def run_docker_cases(cases, out, label, stats):
     verdicts = tracecheck.validate(SPEC, "TraceDockerLaunch", "TraceDockerLaunch.cfg", items, name="xldtrace", chunk=1500, timeout=600)
     out.states += verdicts.n_events
     out.transitions += verdicts.n_events
-    out.traces_validated += verdicts.accepted(len(items))
+    out.traces_validated += len(items) - len(set(verdicts.l2) | {tid for tid, fails in verdicts.l1.items() if any(c not in PINNED for _, cl in fails for c in cl)})
     for tid, fails in sorted(verdicts.l1.items()):
         case, item = index[tid]
         _report_l1(out, stats, tid, fails, {k: case.get(k) for k in DOCKER_KEYS if case.get(k) is not None}, {"part": "docker"}, "docker run %s (%d events)" % (tid, len(item["events"])))
@@ -1442,12 +1470,12 @@ def run_docker_part(ctx, out):
         else:
             out.extra.setdefault("model_selftests", []).append("%s violates %s in the model, as expected: %s" % (c, expect, texts[expect]))
     stats = {"runs": 0, "down_failed": 0, "events_max": 0, "s2c_complete": 0, "s2c_followed": 0, "l1": {}, "l1_new": {}}
-    sim = docker_cases_from_tlc(ctx, out, "DockerLaunch.sim.cfg", 120 if ctx.quick else 1500, 70)
-    sim += docker_cases_from_tlc(ctx, out, "DockerLaunch.simok.cfg", 120 if ctx.quick else 1500, 70)
+    sim = docker_cases_from_tlc(ctx, out, "DockerLaunch.sim.cfg", 100 if ctx.quick else 1500, 70)
+    sim += docker_cases_from_tlc(ctx, out, "DockerLaunch.simok.cfg", 100 if ctx.quick else 1500, 70)
     items = run_docker_cases(sim, out, "dsim", stats)
     out.sample({"source": "tlc-simulate (docker)", "scn": sim[0]["scn"], "recorded_events": [[e["a"], e["n"], e["r"]] for e in items[0]["events"]]})
     rnd = random.Random(ctx.seed + 211)
-    rc = [random_docker_case(rnd) for _ in range(250 if ctx.quick else 4000)]
+    rc = [random_docker_case(rnd) for _ in range(200 if ctx.quick else 4000)]
     run_docker_cases(rc, out, "drnd", stats)
     out.extra["docker_runs"] = stats
     out.note("leg S2C/C2S (docker): %d runs, start results %s, compose down failed in %d, longest run %d events; S2C: %d/%d complete TLC behaviours reproduced event by event" % (stats["runs"], {k[6:]: v for k, v in stats.items() if k.startswith("start_")}, stats["down_failed"], stats["events_max"], stats["s2c_followed"], stats["s2c_complete"]))
